@@ -14,8 +14,9 @@ otherwise, and every hypothesis is instantiated on a concrete value below its th
   satisfier to be local to its input — shown necessary by a counterexample).
 * T3 `order_independent`: the result is a function of the field maps; insertions with
   distinct keys commute.
-* defects of the code, as theorems about the faithful model: `finalize_inp_mall_ignores_mall`
-  (copy-paste `allow_mall = false`), `get_utxo_panics_on_short_prev_tx` (F8).
+* the former defects (F8, F8b, `finalize_inp_mall_mut`) are fixed in /repo; the model follows and
+  the positive statements are theorems at full strength: `finalize_never_panics` (no public entry
+  point panics, on any PSBT), `finalize_inp_mall_honours_mall` (an equation).
 -/
 import MsVerif.Model.Psbt
 
@@ -35,6 +36,19 @@ theorem finalizedInput_isFinal (inp : Input) (wit : Wit) (ss : SS) (h : ¬(wit =
     (finalizedInput inp wit ss).isFinal = true := by
   cases wit <;> cases ss <;> simp_all [finalizedInput, Input.isFinal]
 
+/-- `finalize_input` succeeds only when PSBT and transaction have the same number of inputs -/
+theorem finalizeInput_ok_core (P : Params) (p p' : Psbt) (i : Nat) (m : Bool)
+    (h : finalizeInput P p i m = .ok p') :
+    p.tx.ins.length = p.inputs.length ∧ finalizeInputCore P p i m = .ok p' := by
+  unfold finalizeInput at h
+  by_cases hc : p.tx.ins.length = p.inputs.length
+  · simp [hc] at h; exact ⟨hc, h⟩
+  · simp [hc] at h
+
+theorem finalizeInput_eq_core (P : Params) (p : Psbt) (i : Nat) (m : Bool)
+    (hc : p.tx.ins.length = p.inputs.length) : finalizeInput P p i m = finalizeInputCore P p i m := by
+  simp [finalizeInput, hc]
+
 /-- case analysis of `finalize_input` -/
 theorem finalizeInput_ok_cases (P : Params) (p p' : Psbt) (i : Nat) (m : Bool)
     (h : finalizeInput P p i m = .ok p') :
@@ -42,7 +56,8 @@ theorem finalizeInput_ok_cases (P : Params) (p p' : Psbt) (i : Nat) (m : Bool)
       ((inp.isFinal = true ∧ p' = p) ∨
        (inp.isFinal = false ∧ ∃ wit ss, finalizeInputHelper P p i m = .ok (wit, ss) ∧
           p' = { p with inputs := p.inputs.set i (finalizedInput inp wit ss) })) := by
-  unfold finalizeInput at h
+  have h := (finalizeInput_ok_core P p p' i m h).2
+  unfold finalizeInputCore at h
   cases hi : p.inputs[i]? with
   | none => simp [hi] at h
   | some inp =>
@@ -318,8 +333,9 @@ every output type a sane descriptor produces: all need at least a signature) -/
 def NonEmptySpend (P : Params) : Prop := ∀ tx i utxos spk, P.interp tx i utxos spk [] [] = false
 
 theorem finalizeInput_of_final (P : Params) (p : Psbt) (i : Nat) (m : Bool) (inp : Input)
+    (hc : p.tx.ins.length = p.inputs.length)
     (hi : p.inputs[i]? = some inp) (hf : inp.isFinal = true) : finalizeInput P p i m = .ok p := by
-  simp [finalizeInput, hi, hf]
+  simp [finalizeInput, finalizeInputCore, hc, hi, hf]
 
 /-- after a successful `finalize_input` the input is final -/
 theorem finalizeInput_makes_final (P : Params) (hne : NonEmptySpend P) (p p' : Psbt) (i : Nat) (m : Bool)
@@ -349,9 +365,12 @@ theorem finalize_idempotent (P : Params) (hne : NonEmptySpend P) (p : Psbt) (i :
     | ok p' =>
       simp only
       obtain ⟨inp', hi', hf'⟩ := finalizeInput_makes_final P hne p p' i false h
-      have hlen := (finalizeInput_frame P p p' i false h).2.1
+      have hfr := finalizeInput_frame P p p' i false h
+      have hlen := hfr.2.1
+      have hc' : p'.tx.ins.length = p'.inputs.length := by
+        rw [hfr.1, hlen]; exact (finalizeInput_ok_core P p p' i false h).1
       rw [hlen]; simp only [hge, if_false]
-      rw [finalizeInput_of_final P p' i false inp' hi' hf']
+      rw [finalizeInput_of_final P p' i false inp' hc' hi' hf']
     | err e => simp only [hge, if_false, h]
     | panic => simp only [hge, if_false, h]
 
@@ -465,7 +484,12 @@ theorem finalizeLoop_idem (P : Params) (hl : Local P) (hne : NonEmptySpend P) (m
       have hkeep : p1.inputs[i]? = some inp' := by
         have := (finalizeLoop_step P m tl q []).2.2.2 i hnd'.1
         rw [h] at this; simp only at this; rw [this, hi']
-      rw [finalizeInput_of_final P p1 i m inp' hkeep hf']
+      have hc1 : p1.tx.ins.length = p1.inputs.length := by
+        have hq := finalizeInput_frame P p q i m h0
+        have hv := finalizeLoop_step P m tl q []
+        rw [h] at hv; simp only at hv
+        rw [hv.1, hv.2.1, hq.1, hq.2.1]; exact (finalizeInput_ok_core P p q i m h0).1
+      rw [finalizeInput_of_final P p1 i m inp' hc1 hkeep hf']
       exact ih hnd'.2 q p1 es h
     | err e =>
       simp only [h0] at h
@@ -486,6 +510,11 @@ theorem finalizeLoop_idem (P : Params) (hl : Local P) (hne : NonEmptySpend P) (m
         exact ⟨v1, v2, v4, v3⟩
       have hfail : finalizeInput P p1 i m = .err e := by
         unfold finalizeInput at h0 ⊢
+        rw [hview.1, hview.2.1]
+        by_cases hcnt : p.tx.ins.length = p.inputs.length
+        case neg => simpa [hcnt] using h0
+        simp only [hcnt, bne_self_eq_false, Bool.false_eq_true, if_false] at h0 ⊢
+        unfold finalizeInputCore at h0 ⊢
         rw [hview.2.2.1]
         cases hi : p.inputs[i]? with
         | none => simp [hi] at h0
@@ -767,18 +796,24 @@ theorem input_ext_maps (a b : Input)
   subst h1 h2 h4 h5 h6 h8 h9 h11 h15 h16 e3 e7 e10 e12 e13 e14 e17
   rfl
 
-/-! ## defects of the code, as theorems about the faithful model -/
-
-/-- `finalize_inp_mall_mut` passes `allow_mall = false` (copy-paste): it is the same function
-as `finalize_inp_mut`. -/
-theorem finalize_inp_mall_ignores_mall (P : Params) (p : Psbt) (i : Nat) :
-    finalizeInpMallMut P p i = finalizeInpMut P p i := rfl
+/-! ## the former defects (fixed in /repo: F8, F8b, `finalize_inp_mall_mut`) as positive theorems -/
 
 /-- what the documentation promises ("same as `finalize_inp_mut`, but allows for malleable
-satisfactions") -/
+satisfactions"), at full strength: for an index in range `finalize_inp_mall_mut` is exactly
+`finalize_input` with `allow_mall = true` (success: that PSBT; error or panic: the PSBT
+unchanged and the same error), just as `finalize_inp_mut` is `finalize_input` with
+`allow_mall = false`; out of range both report `InputIdxOutofBounds`. -/
 def finalize_inp_mall_honours_mall_full : Prop :=
-  ∀ (P : Params) (p : Psbt) (i : Nat), i < p.inputs.length →
-    ∀ p', finalizeInput P p i true = .ok p' → (finalizeInpMallMut P p i).result = .ok ()
+  ∀ (P : Params) (p : Psbt) (i : Nat),
+    (i < p.inputs.length →
+      finalizeInpMallMut P p i =
+        (match finalizeInput P p i true with
+         | .ok p' => ⟨p', .ok ()⟩ | .err e => ⟨p, .err e⟩ | .panic => ⟨p, .panic⟩) ∧
+      finalizeInpMut P p i =
+        (match finalizeInput P p i false with
+         | .ok p' => ⟨p', .ok ()⟩ | .err e => ⟨p, .err e⟩ | .panic => ⟨p, .panic⟩)) ∧
+    (p.inputs.length ≤ i →
+      finalizeInpMallMut P p i = ⟨p, .err .idxOutOfBounds⟩ ∧ finalizeInpMut P p i = ⟨p, .err .idxOutOfBounds⟩)
 
 /-! ### concrete instances (non-vacuity, counterexamples) -/
 
@@ -841,37 +876,49 @@ example : extract exP (finalizeMut exP ⟨exPsbt.tx, [exIn (some 0), exIn (some 
 def exPmall : Params :=
   { exP with satisfy := fun d p i mall => if mall then exP.satisfy d p i mall else none }
 
-/-- the promised behaviour is FALSE of the code: with a malleable-only satisfaction
-`finalize_input(.., allow_mall = true)` succeeds but `finalize_inp_mall_mut` reports an error -/
-theorem not_finalize_inp_mall_honours_mall : ¬ finalize_inp_mall_honours_mall_full := by
-  intro h
-  have h1 : ∃ p', finalizeInput exPmall exPsbt 0 true = .ok p' := by
-    cases hh : finalizeInput exPmall exPsbt 0 true with
-    | ok p' => exact ⟨p', rfl⟩
-    | err e => exact absurd (show (match finalizeInput exPmall exPsbt 0 true with | .ok _ => true | _ => false) = true by decide) (by rw [hh]; simp)
-    | panic => exact absurd (show (match finalizeInput exPmall exPsbt 0 true with | .ok _ => true | _ => false) = true by decide) (by rw [hh]; simp)
-  obtain ⟨p', hp'⟩ := h1
-  have := h exPmall exPsbt 0 (by decide) p' hp'
-  exact absurd this (by decide)
+/-- `finalize_inp_mall_mut` allows malleable satisfactions, as documented -/
+theorem finalize_inp_mall_honours_mall : finalize_inp_mall_honours_mall_full := by
+  intro P p i
+  refine ⟨fun hi => ?_, fun hi => ?_⟩
+  · have : ¬ i ≥ p.inputs.length := by omega
+    refine ⟨?_, ?_⟩
+    · simp only [finalizeInpMallMut, this, if_false, inpMallFlag]
+      cases finalizeInput P p i true <;> rfl
+    · simp only [finalizeInpMut, this, if_false]
+      cases finalizeInput P p i false <;> rfl
+  · have : i ≥ p.inputs.length := hi
+    exact ⟨by simp only [finalizeInpMallMut, this, if_true], by simp only [finalizeInpMut, this, if_true]⟩
+
+/-- corollary: whenever the malleable satisfier yields a valid spend, `finalize_inp_mall_mut`
+succeeds with exactly that PSBT -/
+theorem finalize_inp_mall_succeeds (P : Params) (p p' : Psbt) (i : Nat) (hi : i < p.inputs.length)
+    (h : finalizeInput P p i true = .ok p') : finalizeInpMallMut P p i = ⟨p', .ok ()⟩ := by
+  rw [((finalize_inp_mall_honours_mall P p i).1 hi).1, h]
+
+/-- and on a single-input PSBT it is `finalize_mall_mut` (what `J mall-honoured` tests) -/
+theorem finalize_inp_mall_eq_finalize_mall_single (P : Params) (tx : Tx) (inp : Input) :
+    (finalizeInpMallMut P ⟨tx, [inp]⟩ 0).psbt = (finalizeMut P ⟨tx, [inp]⟩ true).psbt ∧
+    ((finalizeInpMallMut P ⟨tx, [inp]⟩ 0).result = .ok () ↔ (finalizeMut P ⟨tx, [inp]⟩ true).result = .ok ()) := by
+  simp only [finalizeInpMallMut, finalizeMut, inpMallFlag, List.length_cons, List.length_nil, Nat.zero_add,
+    ge_iff_le, Nat.le_zero_eq, Nat.succ_ne_zero, if_false, List.range_succ, List.range_zero, List.nil_append,
+    finalizeLoop]
+  cases finalizeInput P ⟨tx, [inp]⟩ 0 true <;> simp [finalizeLoop]
+
+example : (finalizeInpMallMut exPmall exPsbt 0).result = .ok () ∧
+    (finalizeInpMut exPmall exPsbt 0).result = .err (.input .miniscript 0) := by decide
 
 /-- F8: a `non_witness_utxo` with fewer outputs than the spent `vout` -/
 def exShort : Psbt :=
   ⟨⟨2, 0, [⟨1, 3, 0⟩], 0⟩, [{ nonWitnessUtxo := some ⟨1, [⟨[1], 5⟩]⟩ }]⟩
 
-theorem get_utxo_panics_on_short_prev_tx : getUtxo exShort 0 = .panic := by decide
+/-- F8 fixed: a short previous transaction is an error, not a panic -/
+theorem get_utxo_short_prev_tx_is_error : getUtxo exShort 0 = .err .missingUtxo := by decide
 
-def finalize_never_panics_full : Prop :=
-  ∀ (P : Params) (p : Psbt) (m : Bool), (finalizeMut P p m).result ≠ .panic
+example : (finalizeMut exP exShort false).result = .err [.input .missingUtxo 0] := by decide
 
-theorem not_finalize_never_panics : ¬ finalize_never_panics_full := by
-  intro h; exact h exP exShort false (by decide)
-
-/-- the same holds for `finalize_inp_mut`, `extract` needs a final input first -/
-example : (finalizeInpMut exP exShort 0).result = .panic := by decide
-
-/-- more PSBT inputs than transaction inputs (`finalize_mut` has no `sanity_check`) -/
-example : (finalizeMut exP ⟨⟨2, 0, [⟨1, 0, 0⟩], 0⟩, [exIn (some 0), exIn (some 0)]⟩ false).result = .panic := by
-  decide
+/-- F8b fixed: more PSBT inputs than transaction inputs is `WrongInputCount` -/
+example : (finalizeMut exP ⟨⟨2, 0, [⟨1, 0, 0⟩], 0⟩, [exIn (some 0), exIn (some 0)]⟩ false).result =
+    .err [.wrongInputCount, .wrongInputCount] := by decide
 
 /-- a satisfier that looks at ANOTHER input (succeeds for input 0 only once input 1 is final):
 without locality `finalize_mut` is not idempotent -/
@@ -894,24 +941,12 @@ example : (exPsbt.applyAll [(0, .preimage 3 1), (1, .partialSig 7 0), (0, .parti
 example : ((exPsbt.applyAll [(1, .partialSig 7 0), (1, .partialSig 7 1)]).inputs.map (·.partialSigs 7)) ≠
     ((exPsbt.applyAll [(1, .partialSig 7 1), (1, .partialSig 7 0)]).inputs.map (·.partialSigs 7)) := by decide
 
-/-! ### the strongest true no-panic statement -/
+/-! ### `finalize_mut` / `finalize_mall_mut` never panic -/
 
-/-- what `Psbt::deserialize` + a correct Creator guarantee, and what `finalize_mut` silently
-assumes: as many PSBT inputs as transaction inputs, and every `non_witness_utxo` has an
-output at the spent `vout` -/
-def WellFormed (p : Psbt) : Prop :=
-  p.tx.ins.length = p.inputs.length ∧
-  ∀ (i : Nat) (inp : Input) (prev : PrevTx) (txin : TxIn), p.inputs[i]? = some inp →
-    inp.witnessUtxo = none → inp.nonWitnessUtxo = some prev → p.tx.ins[i]? = some txin →
-    txin.vout < prev.outputs.length
-
-theorem getUtxo_no_panic (p : Psbt) (hwf : WellFormed p) (i : Nat) (hi : i < p.inputs.length) :
-    getUtxo p i ≠ .panic := by
+theorem getUtxo_no_panic (p : Psbt) (i : Nat) (hi : i < p.inputs.length) : getUtxo p i ≠ .panic := by
   unfold getUtxo
   have h1 : p.inputs[i]? = some p.inputs[i] := List.getElem?_eq_getElem hi
-  have hi' : i < p.tx.ins.length := by rw [hwf.1]; exact hi
-  have h2 : p.tx.ins[i]? = some p.tx.ins[i] := List.getElem?_eq_getElem hi'
-  rw [h1, h2]
+  rw [h1]
   simp only
   cases hw : p.inputs[i].witnessUtxo with
   | some u => simp
@@ -919,17 +954,19 @@ theorem getUtxo_no_panic (p : Psbt) (hwf : WellFormed p) (i : Nat) (hi : i < p.i
     cases hn : p.inputs[i].nonWitnessUtxo with
     | none => simp
     | some prev =>
-      have hv := hwf.2 i _ prev _ h1 hw hn h2
-      simp [List.getElem?_eq_getElem hv]
+      simp only
+      cases p.tx.ins[i]? with
+      | none => simp
+      | some txin => simp only; cases prev.outputs[txin.vout]? <;> simp
 
-theorem prevoutsFrom_no_panic (p : Psbt) (hwf : WellFormed p) :
+theorem prevoutsFrom_no_panic (p : Psbt) :
     ∀ is : List Nat, (∀ i ∈ is, i < p.inputs.length) → prevoutsFrom p is ≠ .panic := by
   intro is
   induction is with
   | nil => intro _; simp [prevoutsFrom]
   | cons i tl ih =>
     intro h
-    have h1 := getUtxo_no_panic p hwf i (h i (by simp))
+    have h1 := getUtxo_no_panic p i (h i (by simp))
     have h2 := ih (fun j hj => h j (by simp [hj]))
     simp only [prevoutsFrom, Res.bind, Res.mapErr]
     cases hu : getUtxo p i with
@@ -942,9 +979,9 @@ theorem prevoutsFrom_no_panic (p : Psbt) (hwf : WellFormed p) :
       | err e => simp
       | ok us => simp
 
-theorem getDescriptor_no_panic (P : Params) (p : Psbt) (hwf : WellFormed p) (i : Nat)
+theorem getDescriptor_no_panic (P : Params) (p : Psbt) (i : Nat)
     (hi : i < p.inputs.length) : getDescriptor P p i ≠ .panic := by
-  have h0 := getUtxo_no_panic p hwf i hi
+  have h0 := getUtxo_no_panic p i hi
   have h1 : p.inputs[i]? = some p.inputs[i] := List.getElem?_eq_getElem hi
   unfold getDescriptor getScriptPubkey
   cases hu : getUtxo p i with
@@ -955,15 +992,17 @@ theorem getDescriptor_no_panic (P : Params) (p : Psbt) (hwf : WellFormed p) (i :
     repeat' split
     all_goals simp
 
-theorem finalizeInput_no_panic (P : Params) (p : Psbt) (hwf : WellFormed p) (i : Nat) (m : Bool)
+theorem finalizeInput_no_panic (P : Params) (p : Psbt) (i : Nat) (m : Bool)
     (hi : i < p.inputs.length) : finalizeInput P p i m ≠ .panic := by
-  have h0 := getUtxo_no_panic p hwf i hi
-  have h1 : p.inputs[i]? = some p.inputs[i] := List.getElem?_eq_getElem hi
-  have hi' : i < p.tx.ins.length := by rw [hwf.1]; exact hi
-  have h2 : p.tx.ins[i]? = some p.tx.ins[i] := List.getElem?_eq_getElem hi'
-  have hd := getDescriptor_no_panic P p hwf i hi
-  have hp := prevoutsFrom_no_panic p hwf (List.range p.inputs.length) (fun j hj => List.mem_range.mp hj)
   unfold finalizeInput
+  by_cases hcnt : p.tx.ins.length = p.inputs.length
+  case neg => simp [hcnt]
+  simp only [hcnt, bne_self_eq_false, Bool.false_eq_true, if_false]
+  have h0 := getUtxo_no_panic p i hi
+  have h1 : p.inputs[i]? = some p.inputs[i] := List.getElem?_eq_getElem hi
+  have hd := getDescriptor_no_panic P p i hi
+  have hp := prevoutsFrom_no_panic p (List.range p.inputs.length) (fun j hj => List.mem_range.mp hj)
+  unfold finalizeInputCore
   rw [h1]; simp only
   split
   · simp
@@ -999,59 +1038,165 @@ theorem finalizeInput_no_panic (P : Params) (p : Psbt) (hwf : WellFormed p) (i :
         | panic => exact absurd hpv hp
         | err e => simp
         | ok utxos =>
-          simp only [interpreterInpCheck, getScriptPubkey, hu, Res.bind, Res.mapErr, h2]
-          by_cases hint : P.interp p.tx i utxos u.spk r.1 r.2 = true <;> simp [hint]
-
-theorem wellFormed_of_frame (p p' : Psbt) (hwf : WellFormed p) (htx : p'.tx = p.tx)
-    (hlen : p'.inputs.length = p.inputs.length)
-    (hu : ∀ (j : Nat) (inp inp' : Input), p.inputs[j]? = some inp → p'.inputs[j]? = some inp' →
-        inp'.witnessUtxo = inp.witnessUtxo ∧ inp'.nonWitnessUtxo = inp.nonWitnessUtxo) :
-    WellFormed p' := by
-  refine ⟨by rw [htx, hlen]; exact hwf.1, ?_⟩
-  intro i inp' prev txin h1 hw hn h2
-  have hlt : i < p.inputs.length := by
-    rcases Nat.lt_or_ge i p'.inputs.length with h | h
-    · omega
-    · rw [List.getElem?_eq_none h] at h1; cases h1
-  have h3 : p.inputs[i]? = some p.inputs[i] := List.getElem?_eq_getElem hlt
-  obtain ⟨a, b⟩ := hu i _ inp' h3 h1
-  rw [htx] at h2
-  exact hwf.2 i _ prev txin h3 (a ▸ hw) (b ▸ hn) h2
+          simp only [interpreterInpCheck, getScriptPubkey, hu, Res.bind, Res.mapErr]
+          cases p.tx.ins[i]? with
+          | none => simp
+          | some txin =>
+            by_cases hint : P.interp p.tx i utxos u.spk r.1 r.2 = true <;> simp [hint]
 
 theorem finalizeLoop_no_panic (P : Params) (m : Bool) : ∀ (is : List Nat) (p : Psbt) (es : List Err),
-    WellFormed p → (∀ i ∈ is, i < p.inputs.length) → (finalizeLoop P m is p es).2.2 = false := by
+    (∀ i ∈ is, i < p.inputs.length) → (finalizeLoop P m is p es).2.2 = false := by
   intro is
   induction is with
-  | nil => intro p es _ _; rfl
+  | nil => intro p es _; rfl
   | cons i tl ih =>
-    intro p es hwf hb
+    intro p es hb
     simp only [finalizeLoop]
     cases h : finalizeInput P p i m with
-    | panic => exact absurd h (finalizeInput_no_panic P p hwf i m (hb i (by simp)))
-    | err e => exact ih p _ hwf (fun j hj => hb j (by simp [hj]))
+    | panic => exact absurd h (finalizeInput_no_panic P p i m (hb i (by simp)))
+    | err e => exact ih p _ (fun j hj => hb j (by simp [hj]))
     | ok p' =>
-      obtain ⟨f1, f2, _, f4⟩ := finalizeInput_frame P p p' i m h
-      exact ih p' es (wellFormed_of_frame p p' hwf f1 f2 f4) (fun j hj => by rw [f2]; exact hb j (by simp [hj]))
+      obtain ⟨_, f2, _, _⟩ := finalizeInput_frame P p p' i m h
+      exact ih p' es (fun j hj => by rw [f2]; exact hb j (by simp [hj]))
 
-/-- `finalize_never_panics_full` is false (F8, and the missing `sanity_check`); the strongest
-true statement: on a well-formed PSBT `finalize_mut` / `finalize_mall_mut` do not panic,
-whatever the satisfier and the interpreter return. -/
-theorem finalize_never_panics_partial (P : Params) (p : Psbt) (m : Bool) (hwf : WellFormed p) :
-    (finalizeMut P p m).result ≠ .panic := by
-  have h := finalizeLoop_no_panic P m (List.range p.inputs.length) p [] hwf (fun j hj => List.mem_range.mp hj)
+theorem finalizeMut_no_panic (P : Params) (p : Psbt) (m : Bool) : (finalizeMut P p m).result ≠ .panic := by
+  have h := finalizeLoop_no_panic P m (List.range p.inputs.length) p [] (fun j hj => List.mem_range.mp hj)
   unfold finalizeMut
   rcases hl : finalizeLoop P m (List.range p.inputs.length) p [] with ⟨p', es, fl⟩
   rw [hl] at h; simp only at h; subst h
   cases es <;> simp
 
-example : WellFormed exPsbt := by
-  refine ⟨rfl, ?_⟩
-  intro i inp prev txin h1 hw _ _
-  have : i < 2 := by
-    rcases Nat.lt_or_ge i 2 with h | h
-    · exact h
-    · rw [List.getElem?_eq_none (by simpa [exPsbt] using h)] at h1; cases h1
-  have hc : i = 0 ∨ i = 1 := by omega
-  rcases hc with rfl | rfl <;> (simp [exPsbt, exIn] at h1; subst h1; simp at hw)
+theorem sanityFrom_no_panic (P : Params) : ∀ (l : List Input) (k : Nat), sanityFrom P l k ≠ .panic := by
+  intro l
+  induction l with
+  | nil => intro k; simp [sanityFrom]
+  | cons a tl ih => intro k; simp only [sanityFrom]; split; exact ih (k + 1); simp
+
+theorem sanityCheck_no_panic (P : Params) (p : Psbt) : sanityCheck P p ≠ .panic := by
+  unfold sanityCheck; split; simp; exact sanityFrom_no_panic P _ _
+
+theorem finalizeStopLoop_no_panic (P : Params) (m : Bool) : ∀ (is : List Nat) (p : Psbt),
+    (∀ i ∈ is, i < p.inputs.length) → (finalizeStopLoop P m is p).2 ≠ .panic := by
+  intro is
+  induction is with
+  | nil => intro p _; simp [finalizeStopLoop]
+  | cons i tl ih =>
+    intro p hb
+    simp only [finalizeStopLoop]
+    cases h : finalizeInput P p i m with
+    | panic => exact absurd h (finalizeInput_no_panic P p i m (hb i (by simp)))
+    | err e => simp
+    | ok p' =>
+      obtain ⟨_, f2, _, _⟩ := finalizeInput_frame P p p' i m h
+      exact ih p' (fun j hj => by rw [f2]; exact hb j (by simp [hj]))
+
+theorem interpreterInpCheck_no_panic (P : Params) (p : Psbt) (i : Nat) (hi : i < p.inputs.length)
+    (utxos : List TxOut) (w : Wit) (s : SS) : interpreterInpCheck P p i utxos w s ≠ .panic := by
+  have h0 := getUtxo_no_panic p i hi
+  unfold interpreterInpCheck getScriptPubkey
+  cases hu : getUtxo p i with
+  | panic => exact absurd hu h0
+  | err e => simp [Res.bind, Res.mapErr]
+  | ok u =>
+    simp only [Res.bind, Res.mapErr]
+    cases p.tx.ins[i]? with
+    | none => simp
+    | some txin => by_cases hint : P.interp p.tx i utxos u.spk w s = true <;> simp [hint]
+
+theorem interpreterCheckFrom_no_panic (P : Params) (p : Psbt) (utxos : List TxOut) :
+    ∀ (rest : List Input) (k : Nat), k + rest.length ≤ p.inputs.length →
+      interpreterCheckFrom P p utxos rest k ≠ .panic := by
+  intro rest
+  induction rest with
+  | nil => intro k _; simp [interpreterCheckFrom]
+  | cons a tl ih =>
+    intro k hk
+    simp only [List.length_cons] at hk
+    have h1 := interpreterInpCheck_no_panic P p k (by omega) utxos (a.finalScriptWitness.getD []) (a.finalScriptSig.getD [])
+    simp only [interpreterCheckFrom, Res.bind]
+    cases hc : interpreterInpCheck P p k utxos (a.finalScriptWitness.getD []) (a.finalScriptSig.getD []) with
+    | panic => exact absurd hc h1
+    | err e => simp
+    | ok u => exact ih (k + 1) (by omega)
+
+theorem interpreterCheck_no_panic (P : Params) (p : Psbt) : interpreterCheck P p ≠ .panic := by
+  have hp := prevoutsFrom_no_panic p (List.range p.inputs.length) (fun j hj => List.mem_range.mp hj)
+  unfold interpreterCheck
+  cases hpv : prevouts p with
+  | panic => exact absurd hpv hp
+  | err e => simp [Res.bind]
+  | ok utxos => simp only [Res.bind]; exact interpreterCheckFrom_no_panic P p utxos p.inputs 0 (by omega)
+
+theorem extractFill_no_panic : ∀ (l : List Input) (k : Nat), extractFill l k ≠ .panic := by
+  intro l
+  induction l with
+  | nil => intro k; simp [extractFill]
+  | cons a tl ih =>
+    intro k
+    simp only [extractFill]
+    split
+    · simp
+    · simp only [Res.bind]
+      cases hr : extractFill tl (k + 1) with
+      | panic => exact absurd hr (ih (k + 1))
+      | err e => simp
+      | ok l' => simp
+
+/-- the full statement: NO public entry point of the finalizer can panic — for every PSBT
+(well-formed or not: wrong input count, missing or short previous transaction, index out of
+range), every mode, every satisfier and every interpreter. -/
+def finalize_never_panics_full : Prop :=
+  ∀ (P : Params) (p : Psbt) (m : Bool) (i : Nat),
+    (finalizeMut P p m).result ≠ .panic ∧
+    (finalizeInpMut P p i).result ≠ .panic ∧
+    (finalizeInpMallMut P p i).result ≠ .panic ∧
+    (finalizeDeprecated P p m).result ≠ .panic ∧
+    interpreterCheck P p ≠ .panic ∧
+    extract P p ≠ .panic
+
+theorem finalize_never_panics : finalize_never_panics_full := by
+  intro P p m i
+  refine ⟨finalizeMut_no_panic P p m, ?_, ?_, ?_, interpreterCheck_no_panic P p, ?_⟩
+  · unfold finalizeInpMut
+    by_cases hge : i ≥ p.inputs.length
+    · simp [hge]
+    · simp only [hge, if_false]
+      have := finalizeInput_no_panic P p i false (by omega)
+      cases h : finalizeInput P p i false <;> simp_all
+  · unfold finalizeInpMallMut
+    by_cases hge : i ≥ p.inputs.length
+    · simp [hge]
+    · simp only [hge, if_false]
+      have := finalizeInput_no_panic P p i inpMallFlag (by omega)
+      cases h : finalizeInput P p i inpMallFlag <;> simp_all
+  · unfold finalizeDeprecated
+    have hs := sanityCheck_no_panic P p
+    cases h : sanityCheck P p with
+    | panic => exact absurd h hs
+    | err e => simp
+    | ok u =>
+      simp only
+      exact finalizeStopLoop_no_panic P m _ p (fun j hj => List.mem_range.mp hj)
+  · unfold extract
+    have hs := sanityCheck_no_panic P p
+    cases h : sanityCheck P p with
+    | panic => exact absurd h hs
+    | err e => simp [Res.bind]
+    | ok u =>
+      simp only [Res.bind]
+      cases hf : extractFill p.inputs 0 with
+      | panic => exact absurd hf (extractFill_no_panic _ _)
+      | err e => simp
+      | ok l =>
+        simp only
+        cases hi : interpreterCheck P p with
+        | panic => exact absurd hi (interpreterCheck_no_panic P p)
+        | err e => simp
+        | ok u' => simp
+
+/-- the formerly panicking shapes, on every entry point -/
+example : (finalizeInpMut exP exShort 0).result = .err (.input .missingUtxo 0) ∧
+    (finalizeDeprecated exP exShort false).result = .err (.input .missingUtxo 0) ∧
+    interpreterCheck exP exShort = .err (.input .missingUtxo 0) := by decide
 
 end MsVerif.C14
